@@ -77,3 +77,13 @@ Theorem C03_encoder_valid_graphs :
     run (flat_map f_rows (emitted evs)) = Valid (flat_map event_of_quad (d_stmts d)).
 Proof. exact graphs_stream_valid. Qed.
 Print Assumptions C03_encoder_valid_graphs.
+
+(* Every stream the referee accepts is wire-well-formed (ids, option values < 2^32; terms where the
+   schema allows them), so what the encoder emits survives protobuf serialisation and parsing
+   (C01_wire_round_trip): validity at the row level is validity of the bytes. *)
+From PJ.Model Require Import Wire.
+From PJ.Proofs Require Import WireRT SpecWf.
+Theorem C03_valid_streams_are_wire_wf :
+  forall (rows : list row) (evs : list event), run rows = Valid evs -> Forall wf_row rows.
+Proof. exact spec_valid_wf. Qed.
+Print Assumptions C03_valid_streams_are_wire_wf.
